@@ -39,6 +39,12 @@ TARGETS = {
     "xdis/version_info.py": ["C08", "C07"],
     "xdis/lineoffsets.py": ["C05"],
     "xdis/cross_types.py": ["C07", "C01"],
+    "xdis/opcodes/opcode_27.py": ["C09", "C15"],
+    "xdis/opcodes/opcode_36.py": ["C09", "C15"],
+    "xdis/opcodes/opcode_311.py": ["C09", "C15"],
+    "xdis/opcodes/opcode_313.py": ["C09", "C15"],
+    "xdis/opcodes/opcode_3x.py": ["C09", "C15"],
+    "xdis/util.py": ["C12", "C03"],
     "xdis/disasm.py ": ["C11", "C07"],
     "xdis/unmarshal.py ": ["C11", "C07"],
 }
